@@ -178,7 +178,7 @@ def gen_float_model(rnd):
   expect_fold = []
   names = iter("abcdefghij")
   for _ in range(rnd.randint(2, 4)):
-    t = rnd.choice(["conv_bn", "dw_bn", "conv", "conv_branch_bn", "conv_act_bn"])
+    t = rnd.choice(["conv_bn", "dw_bn", "conv", "conv_branch_bn", "conv_act_bn", "act_statsonly_bn", "frozen_conv"])
     n = next(names)
     ub = bool(rnd.randint(0, 1))
     if t == "conv_bn":
@@ -200,6 +200,12 @@ def gen_float_model(rnd):
       x = L.Conv2D(rnd.randint(1, 3), 1, use_bias=ub, activation="relu", name="conv_" + n)(x)
       x = L.BatchNormalization(name="bn_" + n)(x)
       expect_fold.append("conv_" + n)
+    elif t == "act_statsonly_bn":
+      # a BN that is not foldable (it follows an activation) and has no trainable weights at all
+      x = L.Activation("relu", name="act0_" + n)(x)
+      x = L.BatchNormalization(center=False, scale=False, name="sbn_" + n)(x)
+    elif t == "frozen_conv":
+      x = L.Conv2D(rnd.randint(1, 3), 1, use_bias=True, trainable=False, name="conv_" + n)(x)
     if rnd.random() < 0.4:
       x = L.Activation("relu", name="act_" + n)(x)
   return tf.keras.Model(inp, x), expect_fold
